@@ -37,7 +37,10 @@ def accessors(F, S):
         stores = [nd for nd in sf.nodes if is_store(nd)]
         req = "getter reads and setter writes tiles[GetTileIndex(x, y)].%s; the setter stores its argument there and nothing else" % field
         gdefs, sdefs = c05.alias_defs(gf), c05.alias_defs(sf)
-        good = len(rets) == 1 and c05.resolve(gf.term(rets[0]["value"]), gdefs) == want_g and len(stores) == 1 and stores[0].get("op") == "="
+        gt = c05.resolve(gf.term(rets[0]["value"]), gdefs) if len(rets) == 1 else None
+        if gt is not None and gt[0] == "op" and gt[1] == "!=" and ("const", 0) in (gt[2], gt[3]) and (gf.d.get("ret_ct") or "") in ("bool", "_Bool"):
+            gt = gt[3] if gt[2] == ("const", 0) else gt[2]     # `field != 0` is the conversion to bool written out
+        good = len(rets) == 1 and gt == want_g and len(stores) == 1 and stores[0].get("op") == "="
         if good:
             lt = c05.resolve(sf.term(sf.kids(stores[0]["id"])[0]), sdefs)
             rt = sf.term(sf.kids(stores[0]["id"])[1])
@@ -151,13 +154,15 @@ def tile_index_shape(F):
     defs = c05.alias_defs(fn)
     if len(r) != 1:
         raise AnalysisBroken("GetTileIndex: expected one return")
-    t = c05.resolve(fn.term(r[0]["value"]), defs)
+    t = c05.resolve(fn.xterm(r[0]["value"]), defs)
     x, y = P(fn, 0), P(fn, 1)
     H = ("mem", ("this",), "heightInTiles")
     want = ("op", "+", ("op", "*", ("op", "+", ("op", "*", ("op", ">>", x, ("const", 5)), H), y), ("const", 32)), ("op", "&", x, ("const", 31)))
     inst = M + "::GetTileIndex#shape"
     req = "index = ((x >> 5) * heightInTiles + y) * 32 + (x & 31), with 32 == 1 << 5 and 31 == 32 - 1"
-    if t == want:
+    from ..rules_stream import poly
+    if t == want or poly(t) == poly(want):
+        # (the same polynomial in x >> 5, x & 31, y and the height: 64-bit arithmetic on values the map sizes bound)
         return [ok("R-LAYOUT", inst, fn.loc(r[0]["id"]), fn.qn, req, fmt_term(t))]
     return [bad("R-LAYOUT", inst, fn.loc(r[0]["id"]), fn.qn, req, "found %s" % fmt_term(t))]
 
